@@ -223,7 +223,7 @@ func init() {
 			close(release)
 		}
 		// quiescence: reads == decoded + dropped, stable
-		deadline := time.Now().Add(5 * time.Second)
+		deadline := time.Now().Add(wd(5 * time.Second))
 		stable := 0
 		for time.Now().Before(deadline) {
 			r, e, d := tr.counts()
@@ -255,7 +255,7 @@ func init() {
 			} else {
 				t.S("stopok")
 			}
-		case <-time.After(5 * time.Second):
+		case <-time.After(wd(5 * time.Second)):
 			t.S("stophang")
 		}
 		return t.String()
